@@ -1092,13 +1092,11 @@ impl<'store, 'regex> FindRegexIter<'store, 'regex> {
                 let textselection = self
                     .resource
                     .textselection(&Offset::simple(
-                        self.begincharpos
-                            + self
+                        self
                                 .resource
                                 .utf8byte_to_charpos(self.beginbytepos + m.start())
                                 .expect("byte to pos conversion must succeed"),
-                        self.begincharpos
-                            + self
+                        self
                                 .resource
                                 .utf8byte_to_charpos(self.beginbytepos + m.end())
                                 .expect("byte to pos conversion must succeed"),
@@ -1123,13 +1121,11 @@ impl<'store, 'regex> FindRegexIter<'store, 'regex> {
                         textselections.push(
                             self.resource
                                 .textselection(&Offset::simple(
-                                    self.begincharpos
-                                        + self
+                                    self
                                             .resource
                                             .utf8byte_to_charpos(self.beginbytepos + group.start())
                                             .expect("byte to pos conversion must succeed"),
-                                    self.begincharpos
-                                        + self
+                                    self
                                             .resource
                                             .utf8byte_to_charpos(self.beginbytepos + group.end())
                                             .expect("byte to pos conversion must succeed"),
